@@ -21,6 +21,7 @@ import (
 	"sync"
 	"syscall"
 	"time"
+	"unicode"
 
 	"verif/internal/core"
 )
@@ -323,13 +324,39 @@ func run(id, tier string) int {
 	// ---- reach monitor ----
 	cov := coverage(filepath.Join(dir, "cov"))
 	anchorCov := map[string]float64{}
+	var anchorsGone, internalUnreached []string
+	internalReached := 0
 	for _, a := range meta.Anchors {
 		pct, ok := cov[a]
+		if !ok && len(cov) > 0 && unexportedAnchor(a) {
+			// an internal function that this tree does not have (renamed, inlined or removed by a refactoring): nothing to
+			// reach; the exported entry points among the anchors still have to be reached
+			anchorsGone = append(anchorsGone, a)
+			continue
+		}
 		anchorCov[a] = pct
-		if !ok || pct == 0 {
+		if ok && pct > 0 {
+			if unexportedAnchor(a) {
+				internalReached++
+			}
+			continue
+		}
+		if unexportedAnchor(a) {
+			// present but never executed: either the workload lost its way to it, or the tree no longer calls it (dead code
+			// after a refactoring) - which cannot be told apart from here. Listed in the evidence; the run is inconclusive
+			// only if NO internal anchor is reached (below) or an exported entry point is not.
+			internalUnreached = append(internalUnreached, a)
+			continue
+		}
+		inconclusive = append(inconclusive, "anchor function not executed: "+a)
+	}
+	if internalReached == 0 {
+		for _, a := range internalUnreached {
 			inconclusive = append(inconclusive, "anchor function not executed: "+a)
 		}
 	}
+	sort.Strings(anchorsGone)
+	sort.Strings(internalUnreached)
 	// ---- observation floors ----
 	if tierFloorApplies(tier) {
 		for k, f := range meta.Floors {
@@ -421,13 +448,15 @@ func run(id, tier string) int {
 			"observed":                         obs,
 			"distinct_observed":                setSizes,
 			"anchor_function_coverage_percent": anchorCov,
-			"known_finding_hits":               knownHits,
-			"violation_classes":                agg.ViolCount,
-			"inconclusive":                     inconclusive,
-			"race_report_blocks":               nRaceBlocks,
-			"race_reports_distinct":            len(raceReports),
-			"child_processes":                  len(children),
-			"verdict":                          verdict,
+			"anchor_functions_not_present_in_this_tree":          anchorsGone,
+			"internal_anchor_functions_present_but_not_executed": internalUnreached,
+			"known_finding_hits":                                 knownHits,
+			"violation_classes":                                  agg.ViolCount,
+			"inconclusive":                                       inconclusive,
+			"race_report_blocks":                                 nRaceBlocks,
+			"race_reports_distinct":                              len(raceReports),
+			"child_processes":                                    len(children),
+			"verdict":                                            verdict,
 		},
 		"assumptions": meta.Assumptions,
 		"wall_s":      time.Since(t0).Seconds(),
@@ -510,6 +539,21 @@ func raceKey(blk string) string {
 		return "no-mxj-frame"
 	}
 	return strings.Join(fr, "|")
+}
+
+// unexportedAnchor: the anchor names an internal function or a method of an internal type (xmlToMapParser,
+// attrList.Less, *teeReader.ReadByte) - as opposed to an exported entry point (Map.Xml, NewMapXml, j2x.JsonToXml).
+func unexportedAnchor(a string) bool {
+	if i := strings.LastIndex(a, "."); i >= 0 {
+		head := a[:i]
+		if head == "j2x" || head == "x2j" || head == "x2j-wrapper" {
+			a = a[i+1:]
+		} else {
+			a = strings.TrimPrefix(head[strings.LastIndex(head, ".")+1:], "*") // the receiver type decides
+		}
+	}
+	a = strings.TrimPrefix(a, "*")
+	return a != "" && !unicode.IsUpper([]rune(a)[0])
 }
 
 // coverage maps function name -> percent of statements executed, from the
